@@ -14,7 +14,7 @@ place() {
     b=$(basename $f)
     d=$(grep -o "[A-Za-z0-9_/.-]*$b" $S/demo.txt | grep / | head -1)
     [ -z "$d" ] && d="syncer/$b"
-    d=$(echo $d | sed 's#^\./##')
+    d=$(echo $d | sed 's#^\./##; s#^/*##')
     mkdir -p $(dirname $d); cp $f $d; echo $d
   done
 }
